@@ -5,6 +5,7 @@ import (
 	"image"
 	"math"
 	"strings"
+	"sync/atomic"
 
 	"verifsim/engine"
 	"verifsim/machine"
@@ -18,13 +19,15 @@ import (
 // workload describes what one emulator instance runs. It is stored in the scenario as
 // strings/params with a per-instance prefix ("" or "i0.", "i1.", ...).
 type workload struct {
-	Kind  string // rom, prog, scene, rand
-	ROM   string // kind rom: path relative to testdata
-	Seed  uint64 // generator seed for prog/scene/rand
-	Audio bool
-	Video bool
-	Debug bool // Config.DebugLCD (sprites and window drawn in colour)
-	Shape int  // 0: cartridge kind and size follow from the seed; n>0: freeShapes[n-1] (several instances of one shape)
+	Kind     string // rom, prog, scene, rand
+	ROM      string // kind rom: path relative to testdata
+	Seed     uint64 // generator seed for prog/scene/rand
+	Audio    bool
+	Video    bool
+	Debug    bool   // Config.DebugLCD (sprites and window drawn in colour)
+	SamePath bool   // every instance's ROM file carries the same name
+	Prop     string // the property on whose behalf the instance runs (names the class of a construction-time finding)
+	Shape    int    // 0: cartridge kind and size follow from the seed; n>0: freeShapes[n-1] (several instances of one shape)
 }
 
 // freeShapes are cartridge shapes given to all instances of a scenario at once: the largest image
@@ -35,7 +38,8 @@ var freeShapes = []struct {
 	ram  uint8
 	typ  uint8 // 0: the family's usual type byte
 }{{"mbc5", 8, 3, 0}, {"mbc5", 8, 0, 0}, {"mbc1", 6, 3, 0}, {"mbc3", 6, 3, 0}, {"mbc5", 7, 4, 0}, {"rom", 0, 0, 0}, {"mbc2", 3, 0, 0}, {"mbc3", 8, 5, 0},
-	{"mbc3", 1, 3, 0x10}, {"mbc3", 2, 0, 0x0f}} // with the clock
+	{"mbc3", 1, 3, 0x10}, {"mbc3", 2, 0, 0x0f}, // with the clock
+	{"mbc3", 1, 3, 0x13}, {"mbc3", 1, 0, 0x11}} // without it (the clock registers can be selected all the same)
 
 // freeShapeClock is the first shape (1-based) whose cartridge carries the MBC3 clock.
 const freeShapeClock = 9
@@ -64,7 +68,7 @@ func (w workload) store(sc *engine.Scenario, pfx string) {
 
 func loadWorkload(sc *engine.Scenario, pfx string) workload {
 	return workload{Kind: sc.Str(pfx + "wl"), ROM: sc.Str(pfx + "rom"), Seed: uint64(sc.P(pfx+"wseed", 1)),
-		Audio: sc.P(pfx+"audio", 0) != 0, Video: sc.P(pfx+"video", 0) != 0, Debug: sc.P(pfx+"debuglcd", 0) != 0, Shape: int(sc.P(pfx+"shape", 0))}
+		Audio: sc.P(pfx+"audio", 0) != 0, Video: sc.P(pfx+"video", 0) != 0, Debug: sc.P(pfx+"debuglcd", 0) != 0, Shape: int(sc.P(pfx+"shape", 0)), SamePath: sc.P("samepath", 0) != 0}
 }
 
 // ROMs that run under the simulator without relying on anything outside the emulator.
@@ -101,6 +105,9 @@ func randomWorkload(r *engine.Rand) workload {
 var scenePokeRegs = []uint16{0xff42, 0xff43, 0xff45, 0xff47, 0xff48, 0xff49, 0xff4a, 0xff4b, 0xff41,
 	0xff10, 0xff11, 0xff12, 0xff13, 0xff16, 0xff17, 0xff18, 0xff1a, 0xff1b, 0xff1c, 0xff1d, 0xff20, 0xff21, 0xff22, 0xff24, 0xff25,
 	0xff06, 0xff05}
+
+// freeCount counts the instances constructed by newFree in this process (diagnostics only).
+var freeCount atomic.Int64
 
 // newFree constructs the instance for a workload and prepares its initial state.
 func newFree(w workload, chanCap int, res *engine.Result) *machine.Machine {
@@ -143,12 +150,13 @@ func newFree(w workload, chanCap int, res *engine.Result) *machine.Machine {
 		res.Harness = "cart: " + err.Error()
 		return nil
 	}
-	m, pi := machine.New(img, false, machine.Options{Audio: w.Audio, Video: w.Video, Serial: true, ChanCap: chanCap, DebugLCD: w.Debug})
+	m, pi := machine.New(img, false, machine.Options{Audio: w.Audio, Video: w.Video, Serial: true, ChanCap: chanCap, DebugLCD: w.Debug, SamePath: w.SamePath})
 	if pi != nil {
 		res.Harness = fmt.Sprintf("construction panicked for a well-formed cartridge: %s (%s)", pi.Value, pi.Site)
 		return nil
 	}
 	m.GuardUndefined = true
+	freeCount.Add(1)
 	if w.Kind != "rom" && img[0x147] != 0 {
 		// first touch: straight after construction the guest's view of far-away ROM pages (selected and
 		// read over the bus) is part of the instance's trace; page 1 is selected again afterwards
@@ -163,7 +171,13 @@ func newFree(w workload, chanCap int, res *engine.Result) *machine.Machine {
 			}
 			m.Write(0x2100, uint8(p))
 			for _, a := range []uint16{0x4000, 0x5555, 0x7fff} {
-				dg.Byte(m.Read(a))
+				v := m.Read(a)
+				dg.Byte(v)
+				t := img[0x147]
+				reach := t >= 0x19 && t <= 0x1e || (t >= 0x0f && t <= 0x13 && p < 128) || (t >= 0x01 && t <= 0x03 && p < 32) || ((t == 0x05 || t == 0x06) && p < 16)
+				if want := img[p*0x4000+int(a-0x4000)]; reach && v != want && w.Prop != "" && res.Violation == nil {
+					res.Fail(w.Prop+"/rom-differs-from-image", 0, "straight after construction page %d offset %04x of the cartridge reads %02x, the image the instance was given holds %02x (%d instances were constructed in this process before)", p, a-0x4000, v, want, freeCount.Load()-1)
+				}
 			}
 		}
 		if img[0x147] >= 0x19 && img[0x147] <= 0x1e {
